@@ -53,7 +53,7 @@ func c02MarkTable(e *Env, s *Sched) {
 			nodeParam = p
 		}
 	}
-	for _, ev := range s.statusEvents(fn) {
+	for _, ev := range s.events(e.inlinedSet(fn, nil)) {
 		pos := e.InstrPos(ev.Site)
 		k, isConst := s.constOf(ev)
 		if !sameNode(ev.Root, nodeParam) {
@@ -109,68 +109,106 @@ func c02MarkTable(e *Env, s *Sched) {
 
 func c02PrecondSkip(e *Env, s *Sched) {
 	r := e.R
-	r.Rule("C02.precond-skip", "DCS+MPT", "failed step precondition ⇒ skipped, not launched in that pass", 1)
-	// the If testing EvalConditions(node.Preconditions) != nil
-	var found bool
-	for _, b := range s.Loop.Blocks {
-		last, ok := b.Instrs[len(b.Instrs)-1].(*ssa.If)
-		if !ok {
-			continue
-		}
-		n := ir.Normalize(ir.Lit{Cond: last.Cond, Pol: true})
-		if n.Kind != "cmp" || !ir.IsNilConst(n.Y) {
-			continue
-		}
-		c, ok := ir.Resolve(n.X).(*ssa.Call)
+	r.Rule("C02.precond-skip", "DCS+RC", "failed step precondition ⇒ skipped, not launched in that pass", 1)
+	isPrecondEval := func(v ssa.Value) bool {
+		c, ok := ir.Resolve(v).(*ssa.Call)
 		if !ok || !ir.IsCallTo(&c.Call, "internal/dag.EvalConditions") {
-			continue
+			return false
 		}
 		p, okp := e.C.PathOf(c.Call.Args[0])
-		if !okp || !p.Suffix("Step.Preconditions") || !sameNode(p.Root, s.LoopNode) {
-			continue
-		}
-		found = true
-		failIdx := 0 // successor taken when err != nil
-		if n.Op == token.EQL {
-			failIdx = 1
-		}
-		fb := b.Succs[failIdx]
-		// (a) Skipped is stored on the failing edge
-		skipped := false
-		for _, ev := range s.statusEvents(s.Loop) {
-			k, isC := s.constOf(ev)
-			if isC && k == s.val("NodeStatusSkipped") && sameNode(ev.Root, s.LoopNode) && (ev.Site.Block() == fb || fb.Dominates(ev.Site.Block())) {
-				skipped = true
+		return okp && p.Suffix("Step.Preconditions") && sameNode(p.Root, s.LoopNode)
+	}
+	// (a) on the failing edge of the precondition test the node is marked skipped
+	found := false
+	for _, f := range sortedFns(s.LoopFns) {
+		for _, b := range f.Blocks {
+			last, ok := b.Instrs[len(b.Instrs)-1].(*ssa.If)
+			if !ok {
+				continue
 			}
+			n := ir.Normalize(ir.Lit{Cond: last.Cond, Pol: true})
+			if n.Kind != "cmp" || !ir.IsNilConst(n.Y) || !isPrecondEval(n.X) {
+				continue
+			}
+			found = true
+			failIdx := 0 // successor taken when err != nil
+			if n.Op == token.EQL {
+				failIdx = 1
+			}
+			fb := b.Succs[failIdx]
+			skipped := false
+			for _, ev := range s.statusEvents(f) {
+				k, isC := s.constOf(ev)
+				if isC && k == s.val("NodeStatusSkipped") && sameNode(ev.Root, s.LoopNode) && (ev.Site.Block() == fb || fb.Dominates(ev.Site.Block())) {
+					skipped = true
+				}
+			}
+			r.Check(skipped, "loop: precondition failure stores Skipped into the node", e.InstrPos(last),
+				"when a step's own precondition is not met the node is not marked skipped on that path")
 		}
-		r.Check(skipped, "loop: precondition failure stores Skipped into the node", e.InstrPos(last),
-			"when a step's own precondition is not met the node is not marked skipped on that path")
-		// (b) launch not reachable from the failing edge without re-entering the nodes loop header
-		loops := ir.Loops(s.Loop)
-		inner := ir.InnermostLoop(loops, s.Launch.Block())
-		bad, _ := ir.Bypass(nil, fb, ir.PathQuery{
-			Stop: func(in ssa.Instruction) bool {
-				return inner != nil && in.Block() == inner.Header && in == inner.Header.Instrs[0]
-			},
-			Bad: func(in ssa.Instruction) bool { return in == ssa.Instruction(s.Launch) },
-		})
-		r.Check(bad == nil && inner != nil, "loop: precondition failure cannot fall through to the launch", e.InstrPos(last),
-			"after a failed step precondition control can still reach the goroutine launch in the same pass (the skipped step would be executed)")
 	}
 	if !found {
 		r.Bad("loop: step preconditions evaluated before launch", e.InstrPos(s.Launch),
 			"no `dag.EvalConditions(node.Step.Preconditions) != nil` test found in the scheduling loop before the launch")
 		return
 	}
-	// the launch must be dominated-or-bypassed only via `len(Preconditions) == 0` or EvalConditions == nil: covered by (b)
+	// (b) every way of reaching the launch within one pass over the nodes has the
+	// preconditions evaluated successfully, or there are none (helpers expanded)
+	if s.GateLoop == nil {
+		r.Unknown("loop: the per-node pass the launch belongs to", e.InstrPos(s.Launch), "the launch is not inside a loop over the nodes")
+		return
+	}
+	var body *ssa.BasicBlock
+	for _, sb := range s.GateLoop.Header.Succs {
+		if s.GateLoop.Blocks[sb] {
+			body = sb
+		}
+	}
+	dnf, okRC := ir.ReachingCondition(body, s.GateSite.Block(), 64)
+	if !okRC || len(dnf) == 0 {
+		r.Unknown("loop: precondition failure cannot fall through to the launch", e.InstrPos(s.GateSite), "reaching condition of the launch too large")
+		return
+	}
+	ff := e.Facts(s.GateFn)
+	okAll := true
+	var bad []string
+	for _, cj := range dnf {
+		for _, conj := range ff.ExpandDNFRegion(body, []ir.Lit(cj)) {
+			for _, lits := range e.expandHelperCalls(ir.NormalizeAll(conj), 0) {
+				good := false
+				for _, l := range lits {
+					if l.Kind != "cmp" {
+						continue
+					}
+					if l.Op == token.EQL && ir.IsNilConst(l.Y) && isPrecondEval(l.X) {
+						good = true
+					}
+					// no preconditions: len(Preconditions) == 0 / <= 0
+					if x, isLen := lenArg(l.X); isLen && (l.Op == token.EQL || l.Op == token.LEQ) {
+						if k, isK := ir.ConstInt(l.Y); isK && k == 0 {
+							if p, okp := e.C.PathOf(x); okp && p.Suffix("Step.Preconditions") && sameNode(p.Root, s.LoopNode) {
+								good = true
+							}
+						}
+					}
+				}
+				if !good {
+					okAll = false
+					bad = append(bad, "{"+strings.Join(e.RenderN(lits), " ; ")+"}")
+				}
+			}
+		}
+	}
+	r.Check(okAll, "loop: precondition failure cannot fall through to the launch", e.InstrPos(s.GateSite),
+		"within one pass over the nodes the goroutine launch can be reached although the step's preconditions were not evaluated successfully (the skipped step would be executed)",
+		"ways to the launch without `EvalConditions(...) == nil` or `len(Preconditions) == 0`: "+strings.Join(bad, " | "))
 }
 
 func c02FailLabel(e *Env, s *Sched) {
 	r := e.R
 	r.Rule("C02.fail-label", "MPT", "failed exec ⇒ some status stored before final labelling", 1)
-	w := s.Worker
 	n := 0
-	evs := s.statusEvents(w)
+	evs := s.events(s.WorkerFns)
 	isStatusStore := func(in ssa.Instruction) bool {
 		for _, ev := range evs {
 			if ev.Site == in && sameNode(ev.Root, s.WorkerNode) {
@@ -186,93 +224,97 @@ func c02FailLabel(e *Env, s *Sched) {
 			succSites = append(succSites, ev.Site)
 		}
 	}
-	for _, b := range w.Blocks {
-		last, ok := b.Instrs[len(b.Instrs)-1].(*ssa.If)
-		if !ok {
-			continue
-		}
-		nl := ir.Normalize(ir.Lit{Cond: last.Cond, Pol: true})
-		if nl.Kind != "cmp" || !ir.IsNilConst(nl.Y) {
-			continue
-		}
-		c, ok := ir.Resolve(nl.X).(*ssa.Call)
-		if !ok || c.Call.StaticCallee() == nil || c.Parent() != w {
-			continue
-		}
-		if !e.ReachesRepo(c.Call.StaticCallee(), func(x *ssa.Function) bool { return x == s.Execute }) {
-			continue
-		}
-		// only the first test of this result (the one dominating the others)
-		first := true
-		for _, ob := range w.Blocks {
-			if oi, ok := ob.Instrs[len(ob.Instrs)-1].(*ssa.If); ok && ob != b {
-				on := ir.Normalize(ir.Lit{Cond: oi.Cond, Pol: true})
-				if on.Kind == "cmp" && ir.Resolve(on.X) == ssa.Value(c) && ob.Dominates(b) {
-					first = false
-				}
-			}
-		}
-		if !first {
-			continue
-		}
-		n++
-		failIdx := 0
-		if nl.Op == token.EQL {
-			failIdx = 1
-		}
-		start := b.Succs[failIdx]
-		exemptLit := func(l ir.NLit) bool {
-			if l.Kind == "cmp" && l.Op == token.EQL && s.isStatusOf(s.WorkerNode)(l.X) {
-				if k, ok := ir.ConstInt(l.Y); ok && (s.name(k) == "NodeStatusSuccess" || s.name(k) == "NodeStatusCancel") {
-					return true
-				}
-			}
-			if l.Kind == "val" && l.Pol {
-				if cc, ok := l.V.(*ssa.Call); ok && ir.IsCallTo(&cc.Call, "(*"+schedRel+".Scheduler).isCanceled") {
-					return true
-				}
-			}
-			return false
-		}
-		exempt := func(from *ssa.BasicBlock, idx int) bool {
-			// edges that are licensed to leave the status untouched: every way
-			// the edge's condition can hold is an exempt literal
-			i, ok := from.Instrs[len(from.Instrs)-1].(*ssa.If)
+	for _, w := range sortedFns(s.WorkerFns) {
+		for _, b := range w.Blocks {
+			last, ok := b.Instrs[len(b.Instrs)-1].(*ssa.If)
 			if !ok {
-				return false
+				continue
 			}
-			alts := e.Facts(w).Alternatives(ir.Lit{Cond: i.Cond, Pol: idx == 0, If: i})
-			if len(alts) == 0 {
-				return false
+			nl := ir.Normalize(ir.Lit{Cond: last.Cond, Pol: true})
+			if nl.Kind != "cmp" || !ir.IsNilConst(nl.Y) {
+				continue
 			}
-			for _, a := range alts {
-				if !exemptLit(ir.Normalize(a)) {
-					return false
+			c, ok := ir.Resolve(nl.X).(*ssa.Call)
+			if !ok || c.Call.StaticCallee() == nil || c.Parent() != w {
+				continue
+			}
+			if !e.ReachesRepo(c.Call.StaticCallee(), func(x *ssa.Function) bool { return x == s.Execute }) {
+				continue
+			}
+			// only the first test of this result (the one dominating the others)
+			first := true
+			for _, ob := range w.Blocks {
+				if oi, ok := ob.Instrs[len(ob.Instrs)-1].(*ssa.If); ok && ob != b {
+					on := ir.Normalize(ir.Lit{Cond: oi.Cond, Pol: true})
+					if on.Kind == "cmp" && ir.Resolve(on.X) == ssa.Value(c) && ob.Dominates(b) {
+						first = false
+					}
 				}
 			}
-			return true
-		}
-		bad, path := ir.Bypass(nil, start, ir.PathQuery{
-			Stop:     isStatusStore,
-			SkipEdge: exempt,
-			Bad: func(in ssa.Instruction) bool {
-				for _, sx := range succSites {
-					if sx == in {
+			if !first {
+				continue
+			}
+			n++
+			failIdx := 0
+			if nl.Op == token.EQL {
+				failIdx = 1
+			}
+			start := b.Succs[failIdx]
+			exemptLit := func(l ir.NLit) bool {
+				if l.Kind == "cmp" && l.Op == token.EQL && s.isStatusOf(s.WorkerNode)(l.X) {
+					if k, ok := ir.ConstInt(l.Y); ok && (s.name(k) == "NodeStatusSuccess" || s.name(k) == "NodeStatusCancel") {
 						return true
 					}
 				}
-				return ir.IsReturn(in)
-			},
-		})
-		var facts []string
-		if bad != nil {
-			facts = append(facts, "reaches "+e.InstrPos(bad)+" via blocks "+blockList(path))
+				if l.Kind == "val" && l.Pol {
+					if cc, ok := l.V.(*ssa.Call); ok && isCanceledCall(cc) {
+						return true
+					}
+				}
+				return false
+			}
+			exempt := func(from *ssa.BasicBlock, idx int) bool {
+				// edges that are licensed to leave the status untouched: every way
+				// the edge's condition can hold is an exempt literal
+				i, ok := from.Instrs[len(from.Instrs)-1].(*ssa.If)
+				if !ok {
+					return false
+				}
+				alts := e.Facts(from.Parent()).Alternatives(ir.Lit{Cond: i.Cond, Pol: idx == 0, If: i})
+				if len(alts) == 0 {
+					return false
+				}
+				for _, a := range alts {
+					if !exemptLit(ir.Normalize(a)) {
+						return false
+					}
+				}
+				return true
+			}
+			q := ir.PathQuery{
+				Stop:     isStatusStore,
+				SkipEdge: exempt,
+				Descend:  func(g *ssa.Function) bool { return s.inWorker(g) },
+				Bad: func(in ssa.Instruction) bool {
+					for _, sx := range succSites {
+						if sx == in {
+							return true
+						}
+					}
+					return ir.IsReturn(in)
+				},
+			}
+			bad, path := ir.Bypass(nil, start, q)
+			var facts []string
+			if bad != nil {
+				facts = append(facts, "reaches "+e.InstrPos(bad)+" via blocks "+blockList(path))
+			}
+			r.Check(bad == nil, "worker: after exec error every non-exempt path stores a status", e.InstrPos(last),
+				"a failed execution can reach the final labelling / the end of the worker with its status untouched (it would be reported finished or stay running)", facts...)
 		}
-		r.Check(bad == nil, "worker: after exec error every non-exempt path stores a status", e.InstrPos(last),
-			"a failed execution can reach the final labelling / the end of the worker with its status untouched (it would be reported finished or stay running)", facts...)
 	}
 	if n == 0 {
-		r.Unknown("worker: exec error test", e.Pos(w.Pos()), "no `exec(...) != nil` test found in the worker")
+		r.Unknown("worker: exec error test", e.Pos(s.Worker.Pos()), "no `exec(...) != nil` test found in the worker")
 	}
 }
 
@@ -287,9 +329,9 @@ func blockList(bs []*ssa.BasicBlock) string {
 func c02SuccessLabel(e *Env, s *Sched) {
 	r := e.R
 	r.Rule("C02.success-label", "DCS", "Success stored only under status==Running", 1)
-	for _, ev := range s.statusEvents(s.Worker) {
+	for _, ev := range s.events(s.WorkerFns) {
 		k, ok := s.constOf(ev)
-		if !ok || k != s.val("NodeStatusSuccess") {
+		if !ok || k != s.val("NodeStatusSuccess") || !sameNode(ev.Root, s.WorkerNode) {
 			continue
 		}
 		lits := e.DCS(ev.Site)
